@@ -29,24 +29,30 @@ RULE = ("inputs: labelled oriented manifold complexes SURF (triangle, quad, mixe
         "run with and without connectivity queried before; a case = one distinct (input, raw state reached); non-trivial = "
         "at least one element was refined")
 ASSUMPTIONS = [
-    "inputs are oriented manifold polygon complexes / conforming tetrahedral complexes / simple graphs within the size bounds; larger meshes only through the ZOO specimens",
-    "the raw state is read from editor.mesh after every operation (needed to give face/cell indices a meaning: the statement does not fix the numbering of new elements); vertex identity in the oracle is the exact position",
-    "a polygon with >= 5 sides is triangulated as a fan from its centroid (what triangulate_face documents through split_face_as_fan); a quad may be split along either diagonal; the 1-to-6 pattern may use either diagonal of each of the three quads",
-    "the area clause is evaluated only when every face with >= 4 sides of the input is exactly planar and strictly convex (otherwise the area of the input is not defined); positions are compared with tolerance 1e-9 x coordinate scale, areas and volumes exactly on the matched exact positions",
-    "connectivity answers of a handed-back mesh are judged with the accessor table of C01/C03 (props/c01.py, props/c03.py) against SurfOracle/VolOracle built from the RESULT's own element lists; for results with many elements each accessor's argument domain is thinned by a fixed stride to the cap given in the bounds",
-    "split_double_boundary_edges_triangles is only called on triangle meshes (its documentation speaks of triangles); attributes (e.g. hard_edges flags) are outside the statement and not compared",
-    "after an operation raised, the remaining clauses of that sequence are not evaluated and the sequence is not extended",
+    "inputs are oriented manifold polygon complexes / conforming tetrahedral complexes / simple graphs within the size bounds; larger meshes only through the ZOO specimens; coordinates: integer moment curve (generic) for SURF/TET/GRAPH, the specimens' own coordinates for ZOO",
+    "the raw state is read from editor.mesh after every operation (needed to give face/cell indices a meaning: the statement does not fix the numbering of new elements); in the oracle a vertex is identified by its exact affine combination of the original vertices, matched to the observed vertex by position (tolerance 1e-9 x coordinate scale); a sequence in which two different centres coincide within that tolerance is filtered and counted (filtered_coincident_refinement_points)",
+    "a polygon with >= 5 sides is triangulated as a fan from its centroid (triangulate_face delegates to the documented split_face_as_fan); a quad may be split along either diagonal that is not already an edge of the mesh; the 1-to-6 pattern may use either diagonal of each of the three quads (the docstring says corner-barycentre, the code uses midpoint-midpoint: counted as an observation, not a violation)",
+    "a child element must keep the orientation of its parent (faces: cyclic order; tetrahedra: sign of the volume)",
+    "the area clause is evaluated only when every face with >= 4 sides of the input is exactly planar and strictly convex (otherwise the area of the input is not defined); it compares, exactly, the sum of vector areas per oriented plane direction (implies equal total area); volumes are compared exactly on the matched exact positions",
+    "connectivity answers of a handed-back mesh are judged with the accessor tables of C01/C03 (props/c01.py, props/c03.py, minus the two boundary-surface extractors) against SurfOracle/VolOracle built from the RESULT's own element lists; each accessor's argument domain is thinned by a fixed stride to the cap given in the bounds",
+    "'queried before' = every accessor of those tables called once (whole domain for per-argument caches) + is_triangular/is_quad; a clause violated without queried connectivity is not reported again for the queried run of the same sequence, so an input class ':queried_before' means: only when queried",
+    "split_double_boundary_edges_triangles is only called on triangle meshes (its documentation speaks of triangles); attributes (e.g. the hard_edges flags that loop_subdivision's explicit edge list acquires in prepare()) are outside the statement and not compared",
+    "after an operation raised or failed a clause, the remaining clauses of that sequence are not evaluated and the sequence is not extended",
 ]
 BOUNDS = {
-    "quick": ("refined meshes of more than 160 faces are not produced (thorough: 640); surface: one member per isomorphism class of SURF triangles n<=5, triangle+quad n=4 and n=5 (<=4 faces), pentagon / triangle+pentagon / "
-              "quad+pentagon on 5 vertices with sequences of total weight <= 2 (loop_subdivision(2) and subdivide_triangles_6(2) weigh 2); every labelled "
-              "SURF triangle and triangle+quad complex on <= 4 vertices (66) and 14 ZOO specimens with weight <= 1 (+ the two weight-2 events); face arguments: "
-              "first face of each arity and the last face; volume: TET(4), TET(5) (27 complexes), positively oriented cells: sequences <= 2, arguments: every cell, "
-              "every raw face (second step: representatives + elements touched by the first), cells listed sorted (mixed orientation): single operations; polyline: GRAPH(2..4) (71 graphs with an edge), "
-              "split_edge sequences <= 3 over every current edge; accessor domains capped at 60 arguments"),
-    "thorough": ("as quick with sequences of weight <= 3 on SURF n<=4 and on the n=5 classes, weight <= 2 on all labelled SURF n=5 triangle (410), "
-                 "pentagon, and every single-transposition relabeling of the triangle+quad / polygon classes; larger ZOO at weight <= 2; volume sequences <= 2 with every "
-                 "cell and face argument at both steps, <= 3 with representatives; accessor domains capped at 500 arguments (input-object caches: 60)"),
+    "quick": ("refined meshes of more than 160 faces are not produced; surface: one member per isomorphism class of SURF triangles n<=5, triangle+quad "
+              "n=4 and n=5 (<=4 faces), pentagon / triangle+pentagon / quad+pentagon on 5 vertices (40) with sequences of total weight <= 2 "
+              "(loop_subdivision(2) and subdivide_triangles_6(2) weigh 2); every labelled SURF triangle and triangle+quad complex on <= 4 vertices and "
+              "16 ZOO specimens with weight <= 1 (+ the two weight-2 events); face arguments: first face of each arity and the last face; "
+              "volume: TET(4), TET(5) (27 complexes), positively oriented cells: sequences <= 2, arguments: every cell, every raw face (second step: "
+              "representatives + elements touched by the first), cells listed sorted (mixed orientation): single operations; polyline: GRAPH(2..4) "
+              "(71 graphs with an edge), split_edge sequences <= 3 over every current edge; accessor domains capped at 60 arguments"),
+    "thorough": ("refined meshes of more than 400 faces are not produced; surface: weight <= 3 on the classes of SURF triangles n<=5, triangle+quad n=4, "
+                 "pentagons (13); weight <= 2 on every class, on every labelled complex on <= 4 vertices and on every single-transposition relabeling of the "
+                 "triangle and pentagon classes on 5 vertices (142); weight <= 1 on every labelled triangle / pentagon complex on 5 vertices and every "
+                 "single-transposition relabeling of the triangle+quad / polygon classes (632); 33 ZOO specimens at weight <= 2 (<= 12 faces) or 1; face "
+                 "arguments: every face when the state has <= 6 faces; volume: sequences <= 2 with every cell and face argument at both steps, both cell "
+                 "orientations; <= 3 with representatives (positive orientation); polyline: split_edge sequences <= 4; accessor domains capped at 200 arguments"),
 }
 
 
@@ -82,35 +88,46 @@ def _zoo(tier):
 
 
 def _surf_inputs(tier):
-    """(name, n, faces, depth)"""
-    d_small = 2 if tier == "quick" else 3
+    """[name, n, faces, weight bound]; a complex listed twice keeps its first (deepest) entry"""
     ins = []
-    small = {"tri3": (3, list(F.surf_enum(3))), "tri4": (4, list(F.surf_enum(4))),
-             "mix4": (4, [fl for fl in F.surf_enum(4, (3, 4)) if any(len(f) == 4 for f in fl)])}
-    for fam, (n, lists) in small.items():
-        for i, fl in enumerate(_classes(lists, n)):
-            ins.append((f"{fam}c#{i}", n, fl, d_small))
-        for i, fl in enumerate(lists):          # every labelling: weight 1 in quick (a class member above goes deeper)
-            ins.append((f"{fam}#{i}", n, fl, 1 if tier == "quick" else 3))
-    fam5 = {
-        "tri5": list(F.surf_enum(5)),
-        "mix5": [fl for fl in F.surf_enum(5, (3, 4), 4) if any(len(f) == 4 for f in fl)],
-        "pent5": list(F.surf_enum(5, (5,))),
-        "mixp5": [fl for fl in F.surf_enum(5, (3, 5), 3) if any(len(f) == 5 for f in fl)],
-        "mixqp5": [fl for fl in F.surf_enum(5, (4, 5), 3) if any(len(f) == 5 for f in fl)],
+    fams = {
+        "tri3": (3, list(F.surf_enum(3))), "tri4": (4, list(F.surf_enum(4))),
+        "mix4": (4, [fl for fl in F.surf_enum(4, (3, 4)) if any(len(f) == 4 for f in fl)]),
+        "tri5": (5, list(F.surf_enum(5))),
+        "mix5": (5, [fl for fl in F.surf_enum(5, (3, 4), 4) if any(len(f) == 4 for f in fl)]),
+        "pent5": (5, list(F.surf_enum(5, (5,)))),
+        "mixp5": (5, [fl for fl in F.surf_enum(5, (3, 5), 3) if any(len(f) == 5 for f in fl)]),
+        "mixqp5": (5, [fl for fl in F.surf_enum(5, (4, 5), 3) if any(len(f) == 5 for f in fl)]),
     }
-    for fam, lists in fam5.items():
-        cls = _classes(lists, 5)
-        for i, fl in enumerate(cls):
-            ins.append((f"{fam}c#{i}", 5, fl, d_small))
-        if tier == "thorough":
-            if fam in ("tri5", "pent5"):
-                for i, fl in enumerate(lists):
-                    ins.append((f"{fam}#{i}", 5, fl, 2))
-            else:
-                for i, fl in enumerate(cls):
-                    for j, g in enumerate(F.transposition_relabelings(fl, 5)):
-                        ins.append((f"{fam}c#{i}t{j}", 5, g, 2))
+    cls = {fam: _classes(lists, n) for fam, (n, lists) in fams.items()}
+    if tier == "quick":
+        for fam, (n, lists) in fams.items():
+            for i, fl in enumerate(cls[fam]):
+                ins.append((f"{fam}c#{i}", n, fl, 2))
+        for fam in ("tri3", "tri4", "mix4"):            # every labelling of the complexes on <= 4 vertices
+            for i, fl in enumerate(fams[fam][1]):
+                ins.append((f"{fam}#{i}", fams[fam][0], fl, 1))
+    else:
+        for fam in ("tri3", "tri4", "mix4", "tri5", "pent5"):
+            for i, fl in enumerate(cls[fam]):
+                ins.append((f"{fam}c#{i}", fams[fam][0], fl, 3))
+        for fam, (n, lists) in fams.items():
+            for i, fl in enumerate(cls[fam]):
+                ins.append((f"{fam}c#{i}", n, fl, 2))
+        for fam in ("tri3", "tri4", "mix4"):
+            for i, fl in enumerate(fams[fam][1]):
+                ins.append((f"{fam}#{i}", fams[fam][0], fl, 2))
+        for fam in ("tri5", "pent5"):                     # classes under every single transposition of labels
+            for i, fl in enumerate(cls[fam]):
+                for j, g in enumerate(F.transposition_relabelings(fl, 5)):
+                    ins.append((f"{fam}c#{i}t{j}", 5, g, 2))
+        for fam in ("tri5", "pent5"):                     # every labelling
+            for i, fl in enumerate(fams[fam][1]):
+                ins.append((f"{fam}#{i}", 5, fl, 1))
+        for fam in ("mix5", "mixp5", "mixqp5"):
+            for i, fl in enumerate(cls[fam]):
+                for j, g in enumerate(F.transposition_relabelings(fl, 5)):
+                    ins.append((f"{fam}c#{i}t{j}", 5, g, 1))
     seen, out = set(), []
     for name, n, fl, d in ins:
         key = (n, tuple(tuple(f) for f in fl))
@@ -120,21 +137,18 @@ def _surf_inputs(tier):
 
 
 def tasks(tier):
-    cap = 60 if tier == "quick" else 500
+    cap = 60 if tier == "quick" else 200
+    max_faces = 160 if tier == "quick" else 400
+    common = {"fam": "surf", "cap": cap, "max_faces": max_faces, "all_faces": tier == "thorough"}
     out = []
     ins = _surf_inputs(tier)
-    heavy = [x for x in ins if x[3] >= 3]
-    light = [x for x in ins if x[3] == 2]
-    tiny = [x for x in ins if x[3] < 2]
-    for x in heavy:
-        out.append({"fam": "surf", "cap": cap, "all_faces": tier == "thorough", "meshes": [x]})
-    for B, lst in ((2, light), (12, tiny)):
+    for w, B in ((3, 1), (2, 2), (1, 12)):
+        lst = [x for x in ins if x[3] == w]
         for i in range(0, len(lst), B):
-            out.append({"fam": "surf", "cap": cap, "all_faces": tier == "thorough", "meshes": lst[i:i + B]})
+            out.append(dict(common, meshes=lst[i:i + B]))
     for name, p, f in _zoo(tier):
-        big = len(f) > 12
-        d = 1 if tier == "quick" else (1 if big else 2)
-        out.append({"fam": "surf", "cap": cap, "all_faces": False, "zoo": [name, p, f, d]})
+        d = 1 if (tier == "quick" or len(f) > 12) else 2
+        out.append(dict(common, all_faces=False, zoo=[name, p, f, d]))
     # volumes
     tets = []
     for n in (4, 5):
@@ -144,16 +158,17 @@ def tasks(tier):
         for variant in ("positive", "sorted"):
             out.append({"fam": "tet", "cap": cap, "complex": x, "variant": variant,
                         "depth": 1 if (tier == "quick" and variant == "sorted") else 2, "all_args": tier == "thorough"})
-            if tier == "thorough":
-                out.append({"fam": "tet", "cap": cap, "complex": x, "variant": variant, "depth": 3, "all_args": False})
+        if tier == "thorough":
+            out.append({"fam": "tet", "cap": cap, "complex": x, "variant": "positive", "depth": 3, "all_args": False})
     # polylines
     graphs = []
     for n in (2, 3, 4):
         for g in F.graph_enum(n):
             if g:
                 graphs.append([n, [list(e) for e in g]])
-    for i in range(0, len(graphs), 8):
-        out.append({"fam": "graph", "depth": 3, "graphs": graphs[i:i + 8]})
+    B = 8 if tier == "quick" else 2
+    for i in range(0, len(graphs), B):
+        out.append({"fam": "graph", "depth": 3 if tier == "quick" else 4, "graphs": graphs[i:i + B]})
     return out
 
 
@@ -268,11 +283,11 @@ def _apply_surf(ed, kind, arg):
 
 
 class SurfCtx:
-    def __init__(self, M, name, pts, faces, depth, cap, all_faces, rep, is_zoo):
+    def __init__(self, M, name, pts, faces, depth, cap, all_faces, rep, is_zoo, max_faces):
         from props import c01
         self.M, self.name, self.pts, self.faces, self.depth, self.cap, self.rep = M, name, pts, faces, depth, cap, rep
         self.all_faces, self.is_zoo = all_faces, is_zoo
-        self.max_faces = 160 if cap < 100 else 640      # bound on the number of faces of a refined mesh (quick / thorough)
+        self.max_faces = max_faces      # bound on the number of faces of a refined mesh
         self.sort = bool(M.config.sort_neighborhoods)
         self.events = c01._events(self.sort)
         self.arity = _arity_class(faces)
@@ -528,11 +543,17 @@ def explore_surface(cx: SurfCtx):
                         raise R.StepFailure("valid_mesh", "not_an_oriented_manifold", {})
                     after = {"V": obs["V"], "F": obs["F"], "E": obs["E"], "P": Wts, "depth": st["depth"] + 1}
                     Pex = [R.pos(w, cx.P0) for w in Wts]
+                    if kind == "S6" and len(st["F"][0]) == 3:
+                        # observation only (the statement does not fix the diagonal; the docstring says corner-barycentre)
+                        A, B, C = (st["P"][v] for v in st["F"][0])
+                        k = R.rot_min((A, R.centroid((A, B)), R.centroid((A, B, C))))
+                        has = any(R.rot_min(tuple(Wts[v] for v in g)) == k for g in obs["F"])
+                        rep.count("observed_1to6_split_along_" + ("corner_barycentre_diagonal_as_documented" if has else "midpoint_midpoint_diagonal_not_as_documented"))
                 except R.Degenerate:
                     rep.count("filtered_coincident_refinement_points")
                 except R.StepFailure as sf:
                     if taken:
-                        rep.violation("C13.surf.valid_mesh", S_CALLEE["TF"], "mismatch:quad_split_along_an_existing_edge", "quad_diagonal_already_an_edge",
+                        rep.violation("C13.surf.valid_mesh", S_CALLEE["TF"], "mismatch:quad_diagonal_collides_with_another_edge", "quad_diagonal_joins_vertices_joined_elsewhere",
                                       cx.detail(seq2, operation=callee, clause=sf.clause, label=sf.label, quads=taken, state_faces_before=st["F"][:10], **sf.detail))
                     else:
                         rep.violation("C13.surf." + sf.clause, callee, "mismatch:" + sf.label, cls, cx.detail(seq2, **sf.detail))
@@ -1061,7 +1082,7 @@ def run_task(task, rep: Report):
         for name, n, fl, d in task.get("meshes", []):
             recs.append((name, F.moment_curve(n), [tuple(g) for g in fl], d, False))
         for name, pts, faces, d, is_zoo in recs:
-            cx = SurfCtx(M, name, pts, faces, d, task["cap"], task["all_faces"], rep, is_zoo)
+            cx = SurfCtx(M, name, pts, faces, d, task["cap"], task["all_faces"], rep, is_zoo, task["max_faces"])
             if len(set(cx.P0)) != len(cx.P0):
                 rep.count("filtered_coincident_vertices"); continue
             explore_surface(cx)
@@ -1093,7 +1114,7 @@ def finish(tier, rep: Report):
     for c in ("surface_inputs", "volume_inputs", "polyline_inputs", "area_clause_evaluated"):
         if not rep.counters.get(c):
             fails.append("nothing counted for " + c)
-    if rep.counters.get("volume_inputs") != 54 * (2 if tier == "thorough" else 1):
+    if rep.counters.get("volume_inputs") != (81 if tier == "thorough" else 54):
         fails.append(f"expected 27 complexes x 2 orientations, got {rep.counters.get('volume_inputs')}")
     if rep.counters.get("polyline_inputs") != 71:
         fails.append(f"expected 71 graphs with an edge on 2..4 vertices, got {rep.counters.get('polyline_inputs')}")
